@@ -152,7 +152,7 @@ func c06One(r *core.Run, fam string, s gen.Signed, aux int, desc string, vector 
 		return
 	}
 	if perr != nil {
-		fail("own-bytes-do-not-parse["+errClass(perr.Error())+"]", "the constructor's Bytes() are rejected by the parser: "+errClass(perr.Error()))
+		fail("own-bytes-do-not-parse["+rejectClass(fam, out, perr.Error())+"]", "the constructor's Bytes() are rejected by the parser: "+errClass(perr.Error()))
 		return
 	}
 	if remLen != 0 {
